@@ -308,7 +308,9 @@ def domain(name, ctx, default, required):
             base = ids(ctx["trees"])
         return [base[0]] + [x for x in base[1:] if not (name in ("num_threads", "num_iterations", "num_oversamples",
                                                                "num_components", "wrap_width", "max_iter", "size",
-                                                               "precision", "max_rows_increment")
+                                                               "precision", "max_rows_increment", "max_mutations",
+                                                               "max_sites", "max_num_trees", "length", "arity",
+                                                               "random_seed", "rank")
                                                        and x >= HUGE)] + [None, 1.5, "x"]
     if name in FLOAT_LIKE:
         return [L / 4, -1.0, 0.0, math.nextafter(L, 0), L, L + 1, math.nan, math.inf, -math.inf, None, "x"]
@@ -374,7 +376,9 @@ def domain(name, ctx, default, required):
     if name in ("keep",):
         return [[True] * ctx.get("rows", 0), [], [True], [False] * ctx.get("rows", 0), [2] * ctx.get("rows", 0), None, "x"]
     if required:
-        return [0, None, -1, "", [], 1.5, b"x", HUGE]
+        # unknown required parameters (sizes of generated objects etc.): no astronomically large values,
+        # honest work proportional to the argument is not a defect
+        return [0, None, -1, "", [], 1.5, b"x", 1000]
     return None
 
 
